@@ -164,6 +164,11 @@ def make_subjects(binfo, scratch, seed, tier):
     want = 2 if tier == "quick" else 12
     for n, p, sz in cs[:want * 4]:
         progs.append((n, open(p, "rb").read()))
+    # generated programs (the template family shared with C08/C09), small ones first in the list
+    import progen
+    for g in range(1 if tier == "quick" else 6):
+        progs.insert(1 + g, ("gen%02d.as" % g, progen.gen_program(vsim.Rng(seed, "c17-gen", g), size="tiny").encode()))
+    want += 1 if tier == "quick" else 6
     outs = vsim.pmap(lambda p: write_world(binfo, scratch, p[0], p[1]), progs)
     nprog = 0
     skipped = []
